@@ -293,26 +293,83 @@ func atoiU(s string) uint64 {
 	return v
 }
 
+// preSparse: the body has a previous life (preRead): only the setters whose argument differs from what a
+// fresh body holds are called, as a caller who relies on AcquireFrame's Reset would.
+func preSparse() bool { return preRead != nil }
+
 // buildBody makes the frame body through the public setters (plus the verif setters for
-// the fields that have none) and returns the field list as the getters show it.
+// the fields that have none) and returns the field list as the getters show it. With a previous life
+// (preSparse) a setter whose argument is what a fresh body holds is not called, and the field list says
+// what was asked for there: what the getters show is then the previous life's, if Reset let it through.
 func buildBody(ty string, f []string) (http2.Frame, []string, bool) {
+	skipped := map[int]bool{}
+	fr, got, padded := buildBody0(ty, f, skipped)
+	for i := range got {
+		if skipped[i] {
+			got[i] = f[i]
+		}
+	}
+	return fr, got, padded
+}
+
+func buildBody0(ty string, f []string, skipped map[int]bool) (http2.Frame, []string, bool) {
 	tb := func(s string) bool { return s == "1" }
 	switch ty {
 	case "data": // es hp hex
 		d := http2.AcquireFrame(http2.FrameData).(*http2.Data)
-		d.SetEndStream(tb(f[0]))
-		d.SetPadding(tb(f[1]))
-		d.SetData(unhx(f[2]))
+		if !preSparse() || tb(f[0]) {
+			d.SetEndStream(tb(f[0]))
+		} else {
+			skipped[0] = true
+		}
+		if !preSparse() || tb(f[1]) {
+			d.SetPadding(tb(f[1]))
+		} else {
+			skipped[1] = true
+		}
+		if !preSparse() || len(f[2]) > 1 {
+			d.SetData(unhx(f[2]))
+		} else {
+			skipped[2] = true
+		}
 		return d, []string{bit01(d.EndStream()), bit01(d.Padding()), hx(d.Data())}, d.Padding()
 	case "headers": // hp dep w es eh pr hex
 		h := http2.AcquireFrame(http2.FrameHeaders).(*http2.Headers)
-		h.SetPadding(tb(f[0]))
-		h.SetStream(uint32(atoiU(f[1])))
-		h.SetWeight(byte(atoiU(f[2])))
-		h.SetEndStream(tb(f[3]))
-		h.SetEndHeaders(tb(f[4]))
-		h.VerifSetPriority(tb(f[5]))
-		h.SetHeaders(unhx(f[6]))
+		if !preSparse() || tb(f[0]) {
+			h.SetPadding(tb(f[0]))
+		} else {
+			skipped[0] = true
+		}
+		if !preSparse() || atoiU(f[1]) != 0 {
+			h.SetStream(uint32(atoiU(f[1])))
+		} else {
+			skipped[1] = true
+		}
+		if !preSparse() || atoiU(f[2]) != 0 {
+			h.SetWeight(byte(atoiU(f[2])))
+		} else {
+			skipped[2] = true
+		}
+		if !preSparse() || tb(f[3]) {
+			h.SetEndStream(tb(f[3]))
+		} else {
+			skipped[3] = true
+		}
+		if !preSparse() || tb(f[4]) {
+			h.SetEndHeaders(tb(f[4]))
+		} else {
+			skipped[4] = true
+		}
+		if !preSparse() || tb(f[5]) {
+			h.VerifSetPriority(tb(f[5]))
+		} else {
+			skipped[5] = true
+		}
+		if !preSparse() || len(f[6]) > 1 {
+			h.SetHeaders(unhx(f[6]))
+		} else {
+			skipped[6] = true
+		}
 		return h, []string{bit01(h.Padding()), fmt.Sprint(h.Stream()), fmt.Sprint(h.Weight()), bit01(h.EndStream()),
 			bit01(h.EndHeaders()), bit01(h.VerifPriority()), hx(h.Headers())}, h.Padding()
 	case "priority": // dep w
@@ -322,7 +379,11 @@ func buildBody(ty string, f []string) (http2.Frame, []string, bool) {
 		return p, []string{fmt.Sprint(p.Stream()), fmt.Sprint(p.Weight())}, false
 	case "rst": // code
 		r := http2.AcquireFrame(http2.FrameResetStream).(*http2.RstStream)
-		r.SetCode(http2.ErrorCode(atoiU(f[0])))
+		if !preSparse() || atoiU(f[0]) != 0 {
+			r.SetCode(http2.ErrorCode(atoiU(f[0])))
+		} else {
+			skipped[0] = true
+		}
 		return r, []string{fmt.Sprint(uint32(r.Code()))}, false
 	case "settings": // ack ts push ms ws fs hs
 		s := http2.AcquireFrame(http2.FrameSettings).(*http2.Settings)
@@ -348,9 +409,21 @@ func buildBody(ty string, f []string) (http2.Frame, []string, bool) {
 		return p, []string{bit01(p.IsAck()), hx(p.Data())}, false
 	case "goaway": // last code hex
 		g := http2.AcquireFrame(http2.FrameGoAway).(*http2.GoAway)
-		g.SetStream(uint32(atoiU(f[0])))
-		g.SetCode(http2.ErrorCode(atoiU(f[1])))
-		g.SetData(unhx(f[2]))
+		if !preSparse() || atoiU(f[0]) != 0 {
+			g.SetStream(uint32(atoiU(f[0])))
+		} else {
+			skipped[0] = true
+		}
+		if !preSparse() || atoiU(f[1]) != 0 {
+			g.SetCode(http2.ErrorCode(atoiU(f[1])))
+		} else {
+			skipped[1] = true
+		}
+		if !preSparse() || len(f[2]) > 1 {
+			g.SetData(unhx(f[2]))
+		} else {
+			skipped[2] = true
+		}
 		return g, []string{fmt.Sprint(g.Stream()), fmt.Sprint(uint32(g.Code())), hx(g.Data())}, false
 	case "wu": // inc (signed)
 		w := http2.AcquireFrame(http2.FrameWindowUpdate).(*http2.WindowUpdate)
@@ -362,8 +435,16 @@ func buildBody(ty string, f []string) (http2.Frame, []string, bool) {
 		return w, []string{fmt.Sprint(w.Increment())}, false
 	case "cont": // eh hex
 		c := http2.AcquireFrame(http2.FrameContinuation).(*http2.Continuation)
-		c.SetEndHeaders(tb(f[0]))
-		c.SetHeader(unhx(f[1]))
+		if !preSparse() || tb(f[0]) {
+			c.SetEndHeaders(tb(f[0]))
+		} else {
+			skipped[0] = true
+		}
+		if !preSparse() || len(f[1]) > 1 {
+			c.SetHeader(unhx(f[1]))
+		} else {
+			skipped[1] = true
+		}
 		return c, []string{bit01(c.EndHeaders()), hx(c.Headers())}, false
 	}
 	panic("unknown frame type " + ty)
@@ -391,12 +472,24 @@ func usedHeaderIntoPool(junk []byte) {
 	http2.ReleaseFrameHeader(h)
 }
 
+// preRead, when set, is a valid frame that is read (ReadFrameFrom: Deserialize into pooled objects) and
+// released again just before the next frame is built, so that AcquireFrame hands buildBody a body object
+// with a previous life (the pool returns what the same goroutine has just put back). The model builds on
+// a fresh body: AcquireFrame's contract is that Reset leaves nothing of that life behind.
+var preRead []byte
+
 func writeFrame(ty string, pre uint8, sid uint32, f []string, times int, d *dirt) (outs [][]byte, pads []int, fields []string, err string) {
 	defer func() {
 		if r := recover(); r != nil {
 			err = "panic"
 		}
 	}()
+	if preRead != nil {
+		p := newPosReader(preRead)
+		if fr0, e := http2.ReadFrameFromWithSize(p.br, 1<<24-1); e == nil {
+			http2.ReleaseFrameHeader(fr0)
+		}
+	}
 	body, fields, padded := buildBody(ty, f)
 	if d != nil {
 		usedHeaderIntoPool(d.junk)
@@ -438,6 +531,9 @@ func wrLine(ty string, pre uint8, sid uint32, f []string, twice bool, d *dirt) (
 		if d != nil {
 			line = fmt.Sprintf("wrd %s %d %s", hx(d.junk), d.length, line)
 		}
+		if preRead != nil {
+			line = fmt.Sprintf("wrb %s %s", hx(preRead), line)
+		}
 	}()
 	if e != "" {
 		return fmt.Sprintf("wr %s %d %d 0 %s obs=-", ty, pre, sid, strings.Join(f, " ")), e, nil
@@ -454,6 +550,11 @@ func wrLine(ty string, pre uint8, sid uint32, f []string, twice bool, d *dirt) (
 // so the write is repeated until the stored pad lengths come up (1 in 247 per padded write).
 func runWr(f []string) string {
 	var d *dirt
+	if f[0] == "wrb" {
+		preRead = unhx(f[1])
+		defer func() { preRead = nil }()
+		f = f[2:]
+	}
 	if f[0] == "wrd" {
 		d = &dirt{junk: unhx(f[1]), length: int(atoiU(f[2]))}
 		f = f[3:]
@@ -533,7 +634,7 @@ func runFrameLine(line string) string {
 		return runRw(uint32(atoiU(f[2])), unhx(f[3]), append([]byte{}, unhx(f[1])...), false)
 	case "rdm":
 		return runRdm(strings.Split(f[1], ","), unhx(f[2]))
-	case "wr", "wr2", "wrd":
+	case "wr", "wr2", "wrd", "wrb":
 		return runWr(f)
 	}
 	return "?"
@@ -776,6 +877,19 @@ func genFrameWrite(c *genctx) {
 		}
 		n := c.r.pick(0, 1, 2, 3, 4, 5, 6, 7, 8, 9, 10, 17, 100, 300)
 		emit("random", ty, pre, streamIDs[c.r.intn(len(streamIDs))], randFields(ty, n, c.r.chance(40)), false)
+	}
+	// 5b. body objects with a previous life: a frame of the same type (any flags, priority section, padding,
+	// field values) is read and released first, then the frame is built on what AcquireFrame returns
+	nb := 400
+	if thorough {
+		nb = 8000
+	}
+	tyCode := map[string]int{"data": 0, "headers": 1, "priority": 2, "rst": 3, "settings": 4, "pp": 5, "ping": 6, "goaway": 7, "wu": 8, "cont": 9}
+	for i := 0; i < nb; i++ {
+		ty := types[i%len(types)]
+		preRead = c.rawValidFrame(tyCode[ty], c.r.pick(0, 1, 5, 9, 30))
+		emit("after-read", ty, 0, streamIDs[c.r.intn(len(streamIDs))], randFields(ty, c.r.pick(0, 1, 4, 9, 40), c.r.chance(30)), i%5 == 4)
+		preRead = nil
 	}
 	// 6. read a frame, then write the returned *FrameHeader back out (the forwarding path of
 	// examples/proxy): frames from x/net's writer and from the raw writer (any flags, padding)
